@@ -221,7 +221,7 @@ pub fn get_executable_memory_slice<'s>(start: usize, mem_ptr: *const MemoryAreas
   match start {
     0x0000..=0x3fff => &mem.rom[start..0x4000],
     0x4000..=0x7fff => {
-      let bank_start = mem.cart_state.get_rom_bank() * 0x4000;
+      let bank_start = (mem.cart_state.get_rom_bank() * 0x4000) % mem.rom.len();
       let bank_end = bank_start + 0x4000;
       let offset = (start & 0x3fff) + bank_start;
       &mem.rom[offset..bank_end]
@@ -256,7 +256,9 @@ pub extern "sysv64" fn memory_read_byte(areas: *const MemoryAreas, addr: u16) ->
   }
   if addr < 0x8000 { // ROM Bank NN
     let offset = addr as usize & 0x3fff;
-    return memory_areas.rom[0x4000 * memory_areas.cart_state.get_rom_bank() + offset];
+    // bank numbers beyond the cartridge's size wrap, as the unconnected address lines do
+    let index = (0x4000 * memory_areas.cart_state.get_rom_bank() + offset) % memory_areas.rom.len();
+    return memory_areas.rom[index];
   }
   if addr < 0xa000 { // VRAM
     let offset = addr as usize & 0x1fff;
@@ -264,7 +266,12 @@ pub extern "sysv64" fn memory_read_byte(areas: *const MemoryAreas, addr: u16) ->
   }
   if addr < 0xc000 { // Cart RAM
     let offset = addr as usize & 0x1fff;
-    return memory_areas.cart_ram[0x2000 * memory_areas.cart_state.get_ram_bank() + offset];
+    if memory_areas.cart_ram.is_empty() {
+      // no RAM on the cartridge
+      return 0xff;
+    }
+    let index = (0x2000 * memory_areas.cart_state.get_ram_bank() + offset) % memory_areas.cart_ram.len();
+    return memory_areas.cart_ram[index];
   }
   if addr < 0xd000 { // Work RAM Bank 0
     let offset = addr as usize & 0xfff;
@@ -314,7 +321,11 @@ pub extern "sysv64" fn memory_write_byte(areas: *mut MemoryAreas, addr: u16, val
   }
   if addr < 0xc000 { // Cart RAM
     let offset = addr as usize & 0x1fff;
-    memory_areas.cart_ram[0x2000 * memory_areas.cart_state.get_ram_bank() + offset] = value;
+    if memory_areas.cart_ram.is_empty() {
+      return;
+    }
+    let index = (0x2000 * memory_areas.cart_state.get_ram_bank() + offset) % memory_areas.cart_ram.len();
+    memory_areas.cart_ram[index] = value;
     return;
   }
   if addr < 0xd000 { // Work RAM Bank 0
